@@ -126,8 +126,13 @@ def fabricate_reports(acc, ft, w, rnd, cid, seen_exec, order_ids):
             kw["order_qty"] = rnd.choice([float(o.qty) + 3, max(1.0, float(o.qty) - 1), max(1.0, float(o.cum_qty)), 1.0])
         if rnd.random() < 0.2 and o.orig_clord_id:
             kw["orig_clord_id"] = o.orig_clord_id
+        # the helper's arguments in every form it accepts: enum members, the FIX strings, and (the enums compare by str()) plain ints
+        form = rnd.choice(["enum", "enum", "str", "int"])
+        a_et = FExecType(et) if form == "enum" else (int(et) if form == "int" and et.isdigit() else et)
+        a_st = FOrdStatus(st) if form == "enum" else (int(st) if form == "int" and st.isdigit() else st)
+        acc.addmap("helper_argument_forms", form)
         try:
-            m = ft.fix_exec_report_msg(o, cl, FExecType(et), FOrdStatus(st), cum_qty=cq, leaves_qty=lq, last_qty=last, **kw)
+            m = ft.fix_exec_report_msg(o, cl, a_et, a_st, cum_qty=cq, leaves_qty=lq, last_qty=last, **kw)
         except AssertionError:
             acc.add("combinations_refused_by_helper")
             continue
